@@ -51,19 +51,34 @@ def hexVal (c : UInt8) : Option Nat :=
   else if 65 ≤ n ∧ n ≤ 70 then some (n - 55)
   else none
 
-def printfFmt (hex : Bool) : Bytes → Option Bytes
-  | [] => some []
-  | 92 :: 92 :: r => (printfFmt hex r).map (92 :: ·)
-  | 92 :: 120 :: a :: b :: r =>
-    if hex then
-      match hexVal a, hexVal b with
-      | some x, some y => (printfFmt hex r).map (UInt8.ofNat (x * 16 + y) :: ·)
-      | _, _ => none
-    else (printfFmt hex (a :: b :: r)).map (fun t => 92 :: 120 :: t)
-  | 92 :: _ => none
-  | 37 :: 37 :: r => (printfFmt hex r).map (37 :: ·)
-  | 37 :: _ => none
-  | c :: r => (printfFmt hex r).map (c :: ·)
+inductive PfSt
+  | n | bs | x0 | x1 (hi : Nat) | pct
+deriving DecidableEq, Repr
+
+/-- one format byte: next state and the bytes printed -/
+def pfStep (hex : Bool) (st : PfSt) (c : UInt8) : Option (PfSt × Bytes) :=
+  match st with
+  | .n => if c = 92 then some (.bs, []) else if c = 37 then some (.pct, []) else some (.n, [c])
+  | .bs =>
+    if c = 92 then some (.n, [92])
+    else if c = 120 then (if hex then some (.x0, []) else some (.n, [92, 120]))
+    else none
+  | .x0 => match hexVal c with
+    | some a => some (.x1 a, [])
+    | none => none
+  | .x1 a => match hexVal c with
+    | some b => some (.n, [UInt8.ofNat (a * 16 + b)])
+    | none => none
+  | .pct => if c = 37 then some (.n, [37]) else none
+
+def pfGo (hex : Bool) : PfSt → Bytes → Option Bytes
+  | st, [] => if st = .n then some [] else none
+  | st, c :: r =>
+    match pfStep hex st c with
+    | some (st', out) => (pfGo hex st' r).map (out ++ ·)
+    | none => none
+
+def printfFmt (hex : Bool) (fmt : Bytes) : Option Bytes := pfGo hex .n fmt
 
 /-- command substitution removes every trailing newline -/
 def stripNl (b : Bytes) : Bytes :=
@@ -244,10 +259,18 @@ def decBytes (n : Nat) : Bytes := (toString n).toUTF8.toList
 
 def headerArg (h : Bytes × Bytes) : Bytes := h.1 ++ [58, 32] ++ h.2
 
+def sH : Bytes := [45, 72]
+def sX : Bytes := [45, 88]
+def sD : Bytes := [45, 100]
+def sResolve : Bytes := [45, 45, 114, 101, 115, 111, 108, 118, 101]
+def sCompressed : Bytes := [45, 45, 99, 111, 109, 112, 114, 101, 115, 115, 101, 100]
+def sAE : Bytes := [97, 99, 99, 101, 112, 116, 45, 101, 110, 99, 111, 100, 105, 110, 103]
+def sCL0 : Bytes := [99, 111, 110, 116, 101, 110, 116, 45, 108, 101, 110, 103, 116, 104, 58, 32, 48]
+
 def curlHeaderArgs : List (Bytes × Bytes) → List Bytes
   | [] => []
   | h :: r =>
-    (if lname h.1 = [97, 99, 99, 101, 112, 116, 45, 101, 110, 99, 111, 100, 105, 110, 103] then [[45, 45, 99, 111, 109, 112, 114, 101, 115, 115, 101, 100]] else [[45, 72], headerArg h]) ++ curlHeaderArgs r
+    (if lname h.1 = sAE then [sCompressed] else [sH, headerArg h]) ++ curlHeaderArgs r
 
 def sGET : Bytes := [71, 69, 84]
 
@@ -257,13 +280,13 @@ def curlArgs (preserve : Bool) (addr : Option Bytes) (r : Req) : List Bytes :=
     match addr with
     | some a =>
       if preserve ∧ ¬ a.isEmpty ∧ r.prettyHost ≠ a then
-        [[45, 45, 114, 101, 115, 111, 108, 118, 101], r.prettyHost ++ [58] ++ decBytes r.port ++ [58, 91] ++ a ++ [93]]
+        [sResolve, r.prettyHost ++ [58] ++ decBytes r.port ++ [58, 91] ++ a ++ [93]]
       else []
     | none => []
   let meth : List Bytes :=
     if r.method ≠ sGET then
-      (if r.body = .none then [[45, 72], [99, 111, 110, 116, 101, 110, 116, 45, 108, 101, 110, 103, 116, 104, 58, 32, 48]] else []) ++ [[45, 88], r.method]
-    else if r.body ≠ .none then [[45, 88], sGET]
+      (if r.body = .none then [sH, sCL0] else []) ++ [sX, r.method]
+    else if r.body ≠ .none then [sX, sGET]
     else []
   [[99, 117, 114, 108]] ++ resolve ++ curlHeaderArgs (popHeaders r.host r.headers) ++ meth ++ [r.url]
 
@@ -299,19 +322,19 @@ deriving DecidableEq, Repr
 def decodeCurlArgs : List Bytes → Curl → Option Curl
   | [], c => some c
   | a :: r, c =>
-    if a = [45, 72] then match r with
+    if a = sH then match r with
       | v :: r' => decodeCurlArgs r' { c with headers := c.headers ++ [v] }
       | [] => none
-    else if a = [45, 88] then match r with
+    else if a = sX then match r with
       | v :: r' => decodeCurlArgs r' { c with method := some v }
       | [] => none
-    else if a = [45, 100] then match r with
+    else if a = sD then match r with
       | v :: r' => decodeCurlArgs r' { c with data := some v }
       | [] => none
-    else if a = [45, 45, 114, 101, 115, 111, 108, 118, 101] then match r with
+    else if a = sResolve then match r with
       | v :: r' => decodeCurlArgs r' { c with resolve := c.resolve ++ [v] }
       | [] => none
-    else if a = [45, 45, 99, 111, 109, 112, 114, 101, 115, 115, 101, 100] then decodeCurlArgs r { c with compressed := true }
+    else if a = sCompressed then decodeCurlArgs r { c with compressed := true }
     else if a.head? = some 45 then none                 -- an option the exporter never emits
     else decodeCurlArgs r { c with urls := c.urls ++ [a] }
 
@@ -379,12 +402,12 @@ def takeTo (p : UInt8 → Bool) : Bytes → Option (Bytes × Bytes)
 
 /-- one line terminated by CRLF (a CR must be followed by LF) -/
 def takeLine (b : Bytes) : Option (Bytes × Bytes) :=
-  match takeTo (· = 13) b with
+  match takeTo (fun x => x == 13) b with
   | some (l, 10 :: r) => some (l, r)
   | _ => none
 
 def parseField (l : Bytes) : Option (Bytes × Bytes) :=
-  match takeTo (· = 58) l with
+  match takeTo (fun x => x == 58) l with
   | some (n, 32 :: v) => some (n, v)
   | _ => none
 
@@ -404,9 +427,9 @@ def parseFields : Nat → Bytes → Option (List (Bytes × Bytes) × Bytes)
 def parseRaw (b : Bytes) : Option RawReq :=
   match takeLine b with
   | some (rl, rest) =>
-    match takeTo (· = 32) rl with
+    match takeTo (fun x => x == 32) rl with
     | some (m, r1) =>
-      match takeTo (· = 32) r1 with
+      match takeTo (fun x => x == 32) r1 with
       | some (t, v) =>
         match parseFields (rest.length + 1) rest with
         | some (fs, body) => some ⟨m, t, v, fs, body⟩
